@@ -390,18 +390,22 @@ class Beam(_Simu):
         if nodes.size > 1:
             # For each direction, we'll apply the conditions
             for d, dir in enumerate(unknowns):
-                dofs = self.Bc_dofs_nodes(nodes, [dir], problemType)
+                # a condition u_i - u_j = 0 ties two nodes: when more than two beams meet,
+                # the nodes are chained pairwise
+                for pair in zip(nodes[:-1], nodes[1:]):
+                    pair = np.asarray(pair)
+                    dofs = self.Bc_dofs_nodes(pair, [dir], problemType)
 
-                new_LagrangeBc = LagrangeCondition(
-                    problemType,
-                    nodes,
-                    dofs,
-                    [dir],
-                    np.asarray([0], dtype=float),
-                    np.asarray([1, -1], dtype=float),
-                    description,
-                )
-                self._Bc_Add_Lagrange(new_LagrangeBc)
+                    new_LagrangeBc = LagrangeCondition(
+                        problemType,
+                        pair,
+                        dofs,
+                        [dir],
+                        np.asarray([0], dtype=float),
+                        np.asarray([1, -1], dtype=float),
+                        description,
+                    )
+                    self._Bc_Add_Lagrange(new_LagrangeBc)
         else:
             self.add_dirichlet(nodes, [0] * len(unknowns), unknowns)
 
